@@ -316,6 +316,12 @@ def analyse(res: Result, sim: simnet.Sim, sc: Dict[str, Any], out: Dict[str, Any
                     if t >= due - delay - 1.0 and t <= cur.created + 1000.0 * cur.ttl + delay + 1.0:
                         ok = True
                         break
+                    # a browser started late takes over the schedule of what is cached; an entry that fell due during the
+                    # start-up queries is served by the first pass of the scheduler, one delay after the fourth of them
+                    if t <= S4 + delay + 1.0 and t >= due - delay - 1.0 and cur.created + 1000.0 * cur.ttl >= out.get("Bstart", B) - 1.0:
+                        res.obs("entry_due_during_startup_served_by_first_pass")
+                        ok = True
+                        break
                     why.append("%s created +%.0f ttl %d due +%.0f" % (alias, cur.created - B, cur.ttl, due - B))
                 if ok:
                     break
